@@ -1,16 +1,17 @@
 #!/bin/bash
-# usage: tools/benign_eval.sh [bnNN ...]   -- behaviour-preserving refactorings of /repo (seeded/benign/bnNN.diff): every check must
+# usage: tools/benign_eval.sh [bnNN ...]   -- behaviour-preserving refactorings of $R (seeded/benign/bnNN.diff): every check must
+R=${VERIF_REPO:-/repo}
 # stay quiet (exit 0, no VIOLATION line) with each of them applied.  One patch at a time: apply, run all quick checks, undo.
 cd "$(dirname "$0")/.."
 LIST=${@:-$(ls seeded/benign/bn*.diff | xargs -n1 basename | sed 's/.diff//')}
-git -C /repo diff --quiet || { echo "/repo is dirty"; exit 2; }
+git -C $R diff --quiet || { echo "$R is dirty"; exit 2; }
 rm -rf build/evidence.keep; cp -r evidence build/evidence.keep
 for B in $LIST; do
-  git -C /repo apply $PWD/seeded/benign/$B.diff || { echo "$B: patch does not apply"; continue; }
+  git -C $R apply $PWD/seeded/benign/$B.diff || { echo "$B: patch does not apply"; continue; }
   mkdir -p build/benign/$B; rm -f build/benign/$B/rc.txt
   PROPS=$(python3 -c "import json;print(' '.join(c['property_id'] for c in json.load(open('MANIFEST.json'))['checks']))")
   printf '%s\n' $PROPS | xargs -P 6 -I{} bash -c "VERIF_SEED=1 ./check {} --tier quick > build/benign/$B/{}.log 2>&1; echo \"{} rc=\$?\" >> build/benign/$B/rc.txt"
-  git -C /repo checkout -- .
+  git -C $R checkout -- .
   BAD=$(grep -v "rc=0" build/benign/$B/rc.txt | tr '\n' ' ')
   echo "$B: $(grep -c 'rc=0' build/benign/$B/rc.txt)/20 quiet ${BAD:+ALARM: $BAD}"
 done
